@@ -216,9 +216,12 @@ Expected(rules, m, p, method) ==
       mrg  == m.merge /\ HasDouble(p)
       allM == IF mrg THEN {c \in Cands(rules, m, pm) : MergeOf(m, rules[c.r])} ELSE {}
       okM  == {c \in allM : MethodOK(rules[c.r], method)}
-      \* a 405 is required only when a rule admits the path as it is for another method; when the
-      \* other-method rules admit it only through the trailing-slash leniency 404 and 405 are both accepted
-      exactOther == {c \in all : c.mode = "exact"}
+      \* a 405 is required when a rule admits the path for another method without a redirect being
+      \* involved: as it is, or (strict_slashes off for that rule) with one extra trailing slash, which
+      \* is matched directly.  When the other-method rules admit it only through the missing-slash
+      \* form of a branch rule (redirect when strict; not counted by the matcher when not strict)
+      \* 404 and 405 are both accepted
+      exactOther == {c \in all : c.mode \in {"exact", "extra"}}
       Ms(S) == UNION {MethodsOf(rules[c.r]) : c \in S}
   IN IF ok # {} THEN
           [outs |-> {OutcomeOf(rules, m, p, c) : c \in Undominated(rules, ok)},
